@@ -55,6 +55,15 @@ class Rule:
 
 
 class Scenario:
+    # class-level defaults keep replay files written by earlier versions loadable
+    yylmax = None
+    prefix = None
+    tables_file = False
+    tables_verify = False
+    use_read = False
+    user_input = True
+    extra_opts = ()
+
     def __init__(self):
         self.name = 's0'
         self.conds = [('INITIAL', False)]   # (name, exclusive)
